@@ -19,7 +19,7 @@ RULE = ("the tree / option catalogue of C02 (structural trees with hard links, -
         "follow the report order; the summaries agree; the tree after `bash script` equals the tree after the real run "
         "(types, bytes, link targets, hard-link partition). Schedule part: for a 5-group report the script is identical "
         "for ALL 5! arrival orders at the log_script collector seam (E6), also when one or two (adjacent or not) groups yield no command because every member is protected by --keep-name, and for RAYON_NUM_THREADS in {1,2,16}. "
-        "Output part: the script written with `-o FILE` equals the one on standard output, and when FILE cannot take it (RLIMIT_FSIZE 0 / 4096 bytes, /dev/full; 3 and 150 groups) the command may not end with status 0 and an incomplete file. Non-trivial = script with at least one operation; distinct by (tree, op, options, format).")
+        "Output part: the script written with `-o FILE` (a new file, or an existing longer one) equals the one on standard output, and when FILE cannot take it (RLIMIT_FSIZE 0 / 4096 bytes, /dev/full; 3 and 150 groups) the command may not end with status 0 and an incomplete file. Non-trivial = script with at least one operation; distinct by (tree, op, options, format).")
 ASSUMPTIONS = ["bash + coreutils (rm, mv, ln) are the reference for executing the script",
                "`move` and `dedupe` scripts are compared with the real run operation by operation but are not executed "
                "(the statement limits script execution to remove and link)"]
@@ -67,7 +67,7 @@ def cases(tier, seed):
     # full device) the command must say so - a script that silently misses operations is not what a real run does
     for op in ("remove", "link", "softlink", "move"):
         for ng in (3, 150):
-            for how in ("file", "fsize0", "fsize4096", "devfull"):
+            for how in ("file", "prefilled", "fsize0", "fsize4096", "devfull"):
                 if how == "fsize4096" and ng == 3:
                     continue
                 out.append({"kind": "output", "op": op, "ngroups": ng, "how": how})
@@ -165,6 +165,10 @@ def evaluate_output(case):
             raise C.MachineryError("reference dry run failed: %s" % ref["err"][-300:])
         outfile = "/dev/full" if case["how"] == "devfull" else os.path.join(sc.root, "script.out")
         limit = {"fsize0": 0, "fsize4096": 4096}.get(case["how"])
+        if case["how"] == "prefilled":
+            # the file exists already and is longer than the new script (an earlier, broader plan)
+            with open(outfile, "wb") as f:
+                f.write(b"rm /old/plan/file\n" * (len(ref["out"]) // 10 + 50))
 
         def pre():
             if limit is not None:
@@ -180,7 +184,7 @@ def evaluate_output(case):
         ctx = "`%s --dry-run -o %s` (%d groups, %s)" % (case["op"], outfile, n, case["how"])
         if to:
             viol.append(dict(feat, kind="hang", detail=ctx))
-        elif case["how"] == "file":
+        elif case["how"] in ("file", "prefilled"):
             if rc != 0 or not complete or D.parse_summary(errs) != D.parse_summary(ref["err"]):
                 viol.append(dict(feat, detail="%s: rc=%s; the file holds %d bytes, the script on standard output has %d; summaries %s / %s" % (
                     ctx, rc, len(written), len(ref["out"]), D.parse_summary(errs), D.parse_summary(ref["err"]))))
@@ -189,7 +193,7 @@ def evaluate_output(case):
                              detail="%s: exit status 0 and summary %s, but the file holds %d of %d bytes of the script; stderr: %s" % (
                                  ctx, D.parse_summary(errs), len(written), len(ref["out"]), errs[-200:])))
     return {"violations": viol, "nontrivial": [case["op"], "output", n, case["how"]], "outcome": "output_" + case["how"],
-            "evaluations": 2, "counters": {"unwritable_script_files": 0 if case["how"] == "file" else 1},
+            "evaluations": 2, "counters": {"unwritable_script_files": 0 if case["how"] in ("file", "prefilled") else 1},
             "sample": {"op": case["op"], "groups": n, "how": case["how"], "rc": rc}}
 
 
